@@ -736,7 +736,8 @@ def _select_last_carry(sequence: A, seq_lengths: jnp.ndarray) -> A:
     last_idx = seq_lengths - 1
 
     def _slice_array(x: jnp.ndarray):
-        return x[last_idx, jnp.arange(x.shape[1])]
+        # x has shape (time, *batch, ...) and last_idx has shape (*batch).
+        return x[(last_idx, *jnp.indices(last_idx.shape))]
 
     return jax.tree_util.tree_map(_slice_array, sequence)
 
